@@ -19,14 +19,14 @@ import (
 func init() { register("C15", checkC15) }
 
 type c15Req struct {
-	proto      string
-	q, e       int
-	failRuns   []int // ordinals of failing traceroute runs (order of appearance on the wire)
-	failE2e    []int // ordinals of failing end-to-end probes
-	fetcher    string
-	rdns       bool
-	delayPerm  int
-	reach      bool
+	proto     string
+	q, e      int
+	failRuns  []int // ordinals of failing traceroute runs (order of appearance on the wire)
+	failE2e   []int // ordinals of failing end-to-end probes
+	fetcher   string
+	rdns      bool
+	delayPerm int
+	reach     bool
 	// cancelAt >= 0: the caller's context is cancelled this long after the request started (0 = already cancelled)
 	cancelAt time.Duration
 }
